@@ -406,6 +406,10 @@ sexp sexp_utf8_to_string_x (sexp ctx, sexp self, sexp vec, sexp offset, sexp siz
   sexp_assert_type(ctx, sexp_bytesp, SEXP_BYTES, vec);
   sexp_assert_type(ctx, sexp_fixnump, SEXP_FIXNUM, offset);
   sexp_assert_type(ctx, sexp_fixnump, SEXP_FIXNUM, size);
+  if (sexp_unbox_fixnum(offset) < 0
+      || sexp_unbox_fixnum(offset) > sexp_unbox_fixnum(size)
+      || sexp_unbox_fixnum(size) > (sexp_sint_t)sexp_bytes_length(vec))
+    return sexp_range_exception(ctx, vec, offset, size);
   return sexp_bytes_to_string(ctx, vec, sexp_unbox_fixnum(offset), sexp_unbox_fixnum(size));
 }
 
